@@ -220,19 +220,21 @@ func (r *run) play(id int, dir string, seed uint64) error {
 	case r.fatal = <-fatalCh:
 	default:
 	}
+	storeErr := ""
 	rows, err := st.rows(context.Background())
 	if err != nil {
-		return fmt.Errorf("reading the store: %w", err)
+		// recorded, judged by the monitor: a store that cannot be read back consistently has not converged to anything
+		storeErr, rows = err.Error(), nil
 	}
 	last, err := st.GetLastProcessedBlock(context.Background())
 	if err != nil {
-		return fmt.Errorf("GetLastProcessedBlock: %w", err)
+		storeErr += " GetLastProcessedBlock: " + err.Error()
 	}
 	content := make([]tr.M, 0, len(rows))
 	for _, x := range rows {
 		content = append(content, tr.M{"n": x.N, "v": r.c.name(x.N, x.Hash), "evs": x.Evs})
 	}
-	r.c.Emit(tr.M{"ev": "end", "quiet": quiet, "stuck": r.stuck, "loop": r.loop, "fatal": r.fatal, "drift": r.drifts, "last": last, "store": content})
+	r.c.Emit(tr.M{"ev": "end", "quiet": quiet, "stuck": r.stuck, "loop": r.loop, "fatal": r.fatal, "drift": r.drifts, "last": last, "store": content, "storeerr": storeErr})
 	if r.abandoned {
 		return nil
 	}
@@ -597,7 +599,9 @@ func (r *run) quiesce() bool {
 				lastDrv, sameDrv = w.key, 0
 			}
 			if sameDrv > 25 {
-				r.stuck = "the driver retries " + w.key + " for ever"
+				// the chain has stopped and the driver keeps failing at the same call although no failure is injected any more:
+				// the node does not converge (judged like an endless rewind)
+				r.stuck, r.loop = "the driver retries "+w.key+" for ever", true
 				return false
 			}
 			if !r.e.release(w, false, stuckWait) {
